@@ -11,7 +11,12 @@ PROP = "C18"
 RULE = ("every MARKS(n) graph (per pair one of none,->,<-,<->,--,o-o,o->,<-o) n<=3, sampled n=4,5, random n<=8, planted "
         "collider-chain graphs; per graph every ordered (u,c), every first_node/second_node in V-{u}, forbid_node in V-{u}, "
         "force_circle in {F,T} (sampled for n>=5), one both-given call, every ordered triple (u,a,c); max_path_length=None; "
-        "distinct by canonical graph; non-trivial = some query has a path and some has none")
+        "REPEAT stream (every n<=3 graph, 25 % of the sampled/random ones, 50 % of the planted ones): the PAG object is built "
+        "for a neighbour graph (marks of 1-2 pairs changed, -> / <-> swaps favoured), the same queries are run and discarded, "
+        "the object is edited in place into the target graph, then judged - state kept across calls must not go stale; "
+        "label stream: str/tuple/bigint/int257/frozenset/char labels with every query label built by a separate call "
+        "(equal, not identical objects; falsy label 0 used as first/second/forbid node throughout); "
+        "distinct by (canonical graph, warm-up graph, label family); non-trivial = some query has a path and some has none")
 EXHAUSTIVE = {"quick": "all MARKS(n) n<=3 x all queries", "thorough": "all MARKS(n) n<=3 x all queries"}
 TRUSTED = ["PAG construction (add_edge guards), MixedEdgeGraph.neighbors/has_edge taken at face value",
            "CPython iteration order of a set of ints 0..7 is ascending (order-faithful model of uncovered_pd_path)"]
@@ -113,31 +118,109 @@ def crossing(rng, n):
     return gr.from_kinds(n, [kinds[p] for p in gr.pairs(n)])
 
 
+def kinds_of(g):
+    """per pair (a<b, V = 0..n-1) the kind name of a simple-mark graph"""
+    D = {tuple(e) for e in g["D"]}
+    B = {tuple(sorted(e)) for e in g["B"]}
+    U = {tuple(sorted(e)) for e in g["U"]}
+    C = {tuple(e) for e in g["C"]}
+    out = []
+    for a, b in gr.pairs(len(g["V"])):
+        if (a, b) in B:
+            k = "<->"
+        elif (a, b) in U:
+            k = "--"
+        elif (a, b) in D:
+            k = "o->" if (b, a) in C else "->"
+        elif (b, a) in D:
+            k = "<-o" if (a, b) in C else "<-"
+        elif (a, b) in C:
+            k = "o-o" if (b, a) in C else "-o"
+        elif (b, a) in C:
+            k = "o-"
+        else:
+            k = "none"
+        out.append(k)
+    return out
+
+
+ARROWISH = ["->", "<-", "<->"]
+
+
+def neighbour(g, rng):
+    """a graph on the same nodes that differs from g in the marks of one or two adjacent pairs (biased towards
+    -> / <- / <-> swaps: what "is w a parent of c" depends on), sometimes also in one adjacency"""
+    n = len(g["V"])
+    ks = kinds_of(g)
+    adj = [i for i, k in enumerate(ks) if k != "none"]
+    if not adj:
+        return None
+    h = list(ks)
+    for _ in range(rng.choice([1, 1, 2])):
+        i = rng.choice(adj)
+        pool = ARROWISH if (ks[i] in ARROWISH and rng.random() < 0.6) else gr.MARK_KINDS[1:]
+        h[i] = rng.choice([k for k in pool if k != ks[i]])
+    if rng.random() < 0.2:
+        i = rng.randrange(len(h))
+        h[i] = "none" if h[i] != "none" else rng.choice(gr.MARK_KINDS[1:])
+    return gr.from_kinds(n, h) if h != ks else None
+
+
+def with_rep(case, rng):
+    """REPEAT variant: the object is built for a neighbour graph, queried (answers discarded), edited in place into g"""
+    g0 = neighbour(case["g"], rng)
+    return dict(case, rep=g0, kind=case["kind"] + "+rep") if g0 is not None else case
+
+
+LAB_FAMILIES = ["str", "tuple", "bigint", "int257", "frozenset", "char"]
+
+
 def gen_cases(tier, rng):
     quick = tier == "quick"
     for n in (2, 3):
         for g in gr.enum_marks(n):
             yield {"kind": "marks%d" % n, "g": g, "qs": all_queries(g["V"])}
+    for g in gr.enum_marks(3):      # REPEAT stream on every n<=3 graph
+        if g["D"] or g["B"] or g["U"] or g["C"]:
+            yield with_rep({"kind": "marks3", "g": g, "qs": all_queries(g["V"])}, rng)
     kinds = gr.MARK_KINDS
-    for i in range(1200 if quick else 12000):
+    for i in range(600 if quick else 12000):
         g = gr.from_kinds(4, [rng.choice(kinds) for _ in gr.pairs(4)])
-        yield {"kind": "marks4s", "g": g, "qs": pick_queries(g["V"], rng, 240 if quick else None)}
-    for i in range(400 if quick else 6000):
+        case = {"kind": "marks4s", "g": g, "qs": pick_queries(g["V"], rng, 240 if quick else None)}
+        yield with_rep(case, rng) if i % 4 == 0 else case
+    for i in range(220 if quick else 6000):
         g = gr.from_kinds(5, [rng.choice(kinds) if rng.random() < 0.7 else "none" for _ in gr.pairs(5)])
-        yield {"kind": "marks5s", "g": g, "qs": pick_queries(g["V"], rng, 200)}
-    for i in range(150 if quick else 2000):
+        case = {"kind": "marks5s", "g": g, "qs": pick_queries(g["V"], rng, 200)}
+        yield with_rep(case, rng) if i % 4 == 0 else case
+    for i in range(100 if quick else 2000):
         n = rng.randint(6, 8)
         g = gr.random_kinds_graph(rng, n, kinds, p_edge=rng.choice([0.25, 0.4, 0.55]), acyclic=False)
-        yield {"kind": "rand", "g": g, "qs": pick_queries(g["V"], rng, 150)}
-    for i in range(300 if quick else 4000):
-        n = rng.randint(4, 8)
+        case = {"kind": "rand", "g": g, "qs": pick_queries(g["V"], rng, 150)}
+        yield with_rep(case, rng) if i % 4 == 0 else case
+    for i in range(360 if quick else 5000):
+        # collider chains, 5-8 nodes in the majority (several parents of c, several bidirected neighbours)
+        n = rng.randint(4, 8) if i % 3 == 0 else rng.randint(5, 7)
         g = planted(rng, n)
-        yield {"kind": "planted", "g": g, "qs": pick_queries(g["V"], rng, 150)}
-    for i in range(200 if quick else 3000):
+        disc = [[1, u, a, c] for u, a, c in itertools.permutations(g["V"], 3)]
+        qs = pick_queries(g["V"], rng, 100) + rng.sample(disc, min(len(disc), 120))
+        case = {"kind": "planted", "g": g, "qs": qs}
+        yield with_rep(case, rng) if i % 2 == 0 else case
+    for i in range(120 if quick else 3000):
         n = rng.randint(5, 7)
         g = crossing(rng, n)
         plain = [[0, u, c, [], [], [], fc] for u in g["V"] for c in g["V"] if u != c for fc in (0, 1)]
-        yield {"kind": "crossing", "g": g, "qs": plain + pick_queries(g["V"], rng, 150)}
+        case = {"kind": "crossing", "g": g, "qs": plain + pick_queries(g["V"], rng, 120)}
+        yield with_rep(case, rng) if i % 4 == 0 else case
+    # label families: the query labels are built by a SEPARATE call of the label function, so they are equal to but
+    # not identical with the objects stored in the graph (catches `is` comparisons on nodes)
+    for i in range(160 if quick else 2000):
+        n = rng.randint(3, 6)
+        pick = i % 3
+        g = (planted(rng, max(n, 4)) if pick == 0 else crossing(rng, max(n, 5)) if pick == 1
+             else gr.from_kinds(n, [rng.choice(kinds) if rng.random() < 0.7 else "none" for _ in gr.pairs(n)]))
+        forb = [q for q in all_queries(g["V"]) if q[0] == 0 and q[5]]
+        qs = pick_queries(g["V"], rng, 80) + rng.sample(forb, min(len(forb), 80))
+        yield {"kind": "labels", "g": g, "qs": qs, "_lab": rng.choice(LAB_FAMILIES), "_order": rng.randrange(1000)}
 
 
 def encode(case):
@@ -171,12 +254,43 @@ def r_at(impl, i):
 
 
 # ------------------------------------------------------------------ implementation
+def morph_marks(P, g0, g, lab):
+    """edit the PAG built for g0 in place into g: first remove every edge g lacks, then add the missing ones
+    (all removals first, so that the PAG insertion guards never see a half-changed pair)"""
+    names = {"D": "directed", "B": "bidirected", "U": "undirected", "C": "circle"}
+    for phase in ("remove", "add"):
+        for k in "DBUC":
+            norm = (lambda e: tuple(sorted(e))) if k in "BU" else (lambda e: tuple(e))
+            old = {norm(e) for e in g0[k]}
+            new = {norm(e) for e in g[k]}
+            if phase == "remove":
+                for a, b in sorted(old - new):
+                    P.remove_edge(lab(a), lab(b), names[k])
+            else:
+                for a, b in sorted(new - old):
+                    P.add_edge(lab(a), lab(b), names[k])
+
+
 def run_impl(case):
-    from pywhy_graphs.algorithms import discriminating_path, uncovered_pd_path
-    P, lab, inv = gr.to_pag(case["g"], case)
+    g0 = case.get("rep")
+    if g0 is None:
+        P, lab, inv = gr.to_pag(case["g"], case)
+    else:
+        P, lab, inv = gr.to_pag(g0, case)
+        run_queries(P, lab, inv, case["qs"])          # warm-up on the neighbour graph, answers discarded
+        morph_marks(P, g0, case["g"], lab)
+        if gr.canon(gr.from_mixed(P, inv)) != gr.canon(case["g"]):
+            raise AssertionError("harness: morph did not produce the target graph")
     before = gr.snapshot(P)
+    res = run_queries(P, lab, inv, case["qs"])
+    return {"res": res, "mutated": gr.snapshot(P) != before}
+
+
+def run_queries(P, lab, inv, qs):
+    """every label passed to the API is built by a fresh call of lab (equal to, not identical with, the stored node)"""
+    from pywhy_graphs.algorithms import discriminating_path, uncovered_pd_path
     res = []
-    for q in case["qs"]:
+    for q in qs:
         try:
             if q[0] == 0:
                 _, u, c, first, second, forbid, fc = q
@@ -195,7 +309,7 @@ def run_impl(case):
             res.append(0 if r == NOT_FOUND else r)
         except Exception as e:  # noqa
             res.append({"exc": type(e).__name__})
-    return {"res": res, "mutated": gr.snapshot(P) != before}
+    return res
 
 
 # ------------------------------------------------------------------ comparison
@@ -273,7 +387,7 @@ def nontrivial(case, model):
 
 
 def key(case):
-    return gr.canon(case["g"])
+    return (gr.canon(case["g"]), gr.canon(case["rep"]) if case.get("rep") else None, case.get("_lab", "int"))
 
 
 def shrink(case):
@@ -281,15 +395,25 @@ def shrink(case):
     if len(qs) > 1:
         for i in range(len(qs)):
             yield dict(case, qs=[qs[i]])
+    if case.get("rep"):
+        yield {k: v for k, v in case.items() if k != "rep"}      # still failing without the warm-up?
+        for h0 in gr.shrink_graph(case["rep"]):
+            if h0["V"] == case["rep"]["V"]:
+                yield dict(case, rep=h0)
     for h in gr.shrink_graph(case["g"]):
         vs = set(h["V"])
+        c2 = case
+        if case.get("rep"):
+            r0 = case["rep"]
+            c2 = dict(case, rep={"V": [v for v in r0["V"] if v in vs],
+                                 **{k: [e for e in r0[k] if e[0] in vs and e[1] in vs] for k in "DBUC"}})
 
         def ok(q):
             flat = [x for x in q[1:] if isinstance(x, int)] if q[0] == 1 else [q[1], q[2]] + q[3] + q[4] + q[5]
             return all(v in vs for v in flat)
         keep = [q for q in qs if ok(q)]
         if keep:
-            yield dict(case, g=h, qs=keep)
+            yield dict(c2, g=h, qs=keep)
 
 
 TECHNIQUE = ("Coq proof (definitional path enumerations = definitions, deciders reflect existence, search models sound, "
